@@ -148,7 +148,7 @@ Definition is_error (o : outcome) : bool :=
    (with the label and the content of an Upload), whether upload returned an error, the
    Uploader's lastIndex field afterwards and the object in storage afterwards *)
 Record robs := { r_calls : list call; r_err : bool; r_last : N; r_rid : option N; r_rdata : content;
-                 r_attempts : N  (* times Provider.Provide started over on its destination *) }.
+                 r_attempts : option N  (* times Provider.Provide started over on its destination; None = not counted in this round *) }.
 
 Fixpoint list_N_eqb (a b : list N) : bool :=
   match a, b with
@@ -175,7 +175,7 @@ Definition opt_eqb (a b : option N) : bool :=
   match a, b with Some x, Some y => x =? y | None, None => true | _, _ => false end.
 
 Definition robs_agrees (w' : world) (o : outcome) (cs : list call) (n : N) (r : robs) : bool :=
-  (n =? r_attempts r) && calls_eqb cs (r_calls r) && Bool.eqb (is_error o) (r_err r) && (w_last w' =? r_last r)
+  match r_attempts r with Some k => n =? k | None => true end && calls_eqb cs (r_calls r) && Bool.eqb (is_error o) (r_err r) && (w_last w' =? r_last r)
   && opt_eqb (w_rid w') (r_rid r) && list_N_eqb (w_rdata w') (r_rdata r).
 
 (* walk the history; every round consumes one observation *)
